@@ -32,12 +32,12 @@ def gen_job_replication(rng, allow_gpu=True):
     allds = [[t, k] for t in range(len(tasks)) for k in range(tasks[t]["nOut"])]
     p = rng.choice([0.0, 0.3, 1.0])
     ext = [d for d in allds if rng.random() < p or (d[0] == 0 and rng.random() < 0.7)]
-    return {"tasks": tasks, "ext": ext}
+    return {"tasks": tasks, "ext": ext, "family": "replication"}
 
 
 def gen_job(rng, maxn=8, allow_gpu=True):
     """spec = {"tasks":[{"nOut","gpu","params":[[t,k],...]}], "ext":[[t,k],...]} ; tasks are topologically numbered"""
-    if maxn >= 6 and rng.random() < 0.25:
+    if maxn >= 6 and rng.random() < 0.3:
         return gen_job_replication(rng, allow_gpu)
     if maxn >= 6 and rng.random() < 0.12:
         # few independent components (isolated tasks / short chains): with more hosts than components the
@@ -70,7 +70,9 @@ def gen_job(rng, maxn=8, allow_gpu=True):
 def gen_cluster(rng, spec, maxh=3, maxw=3):
     H = rng.randint(1, maxh)
     W = rng.randint(1, maxw)
-    if rng.random() < 0.3:            # many hosts with one worker each: maximises inter-host transfers
+    if rng.random() < (0.75 if spec.get("family") == "replication" else 0.3):
+        # many hosts with one worker each: maximises inter-host transfers; with the replication family the shared dataset
+        # ends up on several hosts, so that later transfers of it have a real choice of `available` sources
         H, W = rng.randint(3, max(3, maxh + 1)), 1
     ws = [[h, w, rng.random() < 0.3] for h in range(H) for w in range(W)]
     if any(t["gpu"] for t in spec["tasks"]) and not any(w[2] for w in ws):
@@ -157,6 +159,13 @@ def seq_eval(spec):
 
 # ----------------------------------------------------------------------------- SimBridge
 
+# C04, literal reading of "never drops it while a transfer it commanded from that host is still unanswered": the controller
+# may purge a source while the bare NOTICE of a transfer from it is undelivered (the transfer itself has been performed and
+# the consumer on the target has completed: Lean c04_queued_purge_io_done / c04_transfer_notice_full_fails). The situation is
+# always counted (`purges_of_a_source_whose_transfer_notice_is_undelivered`); with this switch it is also reported as an
+# oracle failure of kind `purge-before-transfer-notice` (known-finding entry proposed in known/aud0104a.json).
+FLAG_LITERAL_UNANSWERED = False
+
 class WaitWithNothingOutstanding(Exception):
     pass
 
@@ -194,6 +203,17 @@ class SimBridge:
         # as separate environment steps; `ran`/`produced` keep the base model's meaning (set when the body starts)
         self.running = {}                                 # t -> [w, values, next index]
         self.yielded = set()                              # datasets really handed to a host's store
+        # executor steps BETWEEN the bridge calls of one controller round (half of the runs): the model allows them between
+        # any two controller micro-steps; they are recorded with the number of commands of the round issued before them
+        self.midround = rng.random() < 0.5
+        self.mid = []                                     # [[k, op], ...] of the current round
+        self._mid_k = None
+        self.mid_steps = 0
+        self.late_notice = rng.random() < 0.3             # any-order runs: transfer notices are delivered last
+        self.observe_mid = rng.random() < 0.4             # also compare the State after assign()+act() and after plan()
+        self.notes = {}                                   # counters of noteworthy situations (input distribution)
+        self.publish = {}                                 # t -> set of (t,k): what the task sequence naming t CARRIED
+        self.local_only = set()                           # outputs computed but outside the publish set (never announced)
         self.atomic = rng.random() < 0.25                 # a quarter of the runs: bodies publish everything at once
         # lazy I/O adversary (a third of the runs): some transfers/fetches are performed only when nothing else can happen
         # (no runnable body, no other I/O, no undelivered event) — a slow link; exposes commands that outlive their purpose
@@ -204,19 +224,56 @@ class SimBridge:
     def flag(self, kind, detail):
         self.viol.append((kind, detail))
 
+    def note(self, key, n=1):
+        self.notes[key] = self.notes.get(key, 0) + n
+
+    def emit(self, op):
+        if self._mid_k is not None:
+            self.mid.append([self._mid_k, {k: v for k, v in op.items() if k != "op"}])
+        else:
+            self.trace.append(op)
+
+    def _maybe_mid(self, purge_ds=None):
+        """perform a few executor steps in the middle of a controller round, before the command that is being issued"""
+        if not self.midround:
+            return
+        if purge_ds is not None and self.cmds and self.cmds[-1][0] == "purge" and tuple(self.cmds[-1][2:4]) == purge_ds:
+            return      # inside the purge group of one dataset (one micro-step of the model)
+        if self.rng.random() >= 0.3:
+            return
+        self._mid_k = len(self.cmds)
+        try:
+            for _ in range(self.rng.randint(1, 2)):
+                acts = self.enabled_steps()
+                if not acts:
+                    break
+                self.do_step(self.rng.choice(acts))
+                self.mid_steps += 1
+        finally:
+            self._mid_k = None
+
     # --- Bridge API used by the controller
     def get_environment(self):
         return self.env
 
     def task_sequence(self, ts):
         self.calls_since_wait += 1
+        self._maybe_mid()
         w = tuple(un_w(ts.worker))
+        try:
+            pub = sorted(un_ds(d) for d in ts.publish)
+        except Exception as e:      # a publish set naming something that is not a dataset of the job
+            pub = ["unreadable: " + repr(e)[:80]]
         for tn in ts.tasks:
             t = int(tn[1:])
-            self.cmds.append(["task", w[0], w[1], t])
+            # the command as it was CARRIED: worker, task and the publish set (the executor publishes nothing else)
+            self.cmds.append(["task", w[0], w[1], t, [d for d in pub if isinstance(d, list)]])
+            self.publish[t] = {tuple(d) for d in pub if isinstance(d, list)}
             if w not in self.gpu:
                 self.flag("C02 unknown-worker", [w, t])
-            if any(q[0] == w for q in self.queued):
+            # "not already busy": nothing dispatched to this worker is still waiting to start AND no body started on it
+            # is still running (a started body is no longer in `queued`)
+            if any(q[0] == w for q in self.queued) or any(r[0] == w for r in self.running.values()):
                 self.flag("C02 busy-worker", [w, t])
             self.dispatched[t] = self.dispatched.get(t, 0) + 1
             if self.dispatched[t] > 1:
@@ -236,6 +293,7 @@ class SimBridge:
 
     def transmit(self, ds, src, tgt):
         self.calls_since_wait += 1
+        self._maybe_mid()
         d, s, g = tuple(un_ds(ds)), un_h(src), un_h(tgt)
         self.cmds.append(["transmit", d[0], d[1], s, g])
         if d not in self.present[s]:
@@ -249,6 +307,7 @@ class SimBridge:
 
     def fetch(self, ds, src):
         self.calls_since_wait += 1
+        self._maybe_mid()
         d, s = tuple(un_ds(ds)), un_h(src)
         self.cmds.append(["fetch", d[0], d[1], s])
         if d not in self.present[s]:
@@ -261,7 +320,15 @@ class SimBridge:
     def purge(self, host, ds):
         self.calls_since_wait += 1
         d, h = tuple(un_ds(ds)), un_h(host)
+        self._maybe_mid(purge_ds=(d[0], d[1]))
         self.cmds.append(["purge", h, d[0], d[1]])
+        # the literal reading of "unanswered": the notice of a transfer from this host has not reached the controller yet
+        if any(e[0] == "pubT" and (e[2], e[3]) == d and e[5] == h for e in self.pending):
+            self.note("purges_of_a_source_whose_transfer_notice_is_undelivered")
+            if FLAG_LITERAL_UNANSWERED:
+                self.flag("C04 purge-before-transfer-notice", [d, h])
+        if any(e[0] == "pubT" and (e[2], e[3]) == d and e[1] == h for e in self.pending):
+            self.note("purges_of_a_host_still_believed_preparing")
         if any(o[1] == d and o[2] == h for o in self.outstanding):
             self.flag("C04 purge-while-outstanding-from", [d, h])
         for i, t in enumerate(self.spec["tasks"]):
@@ -283,8 +350,10 @@ class SimBridge:
     # --- environment steps
     def enabled_steps(self):
         acts = []
+        busy = {r[0] for r in self.running.values()}
         for (w, t) in self.queued:
-            if all(tuple(d) in self.present[w[0]] for d in inputs_of(self.spec["tasks"][t])):
+            # a worker process executes one task sequence at a time: a body starts only when none is running on its worker
+            if w not in busy and all(tuple(d) in self.present[w[0]] for d in inputs_of(self.spec["tasks"][t])):
                 acts.append(("run", w, t))
         for t in self.running:
             acts.append(("yield", t))
@@ -297,10 +366,15 @@ class SimBridge:
 
     def do_yield(self, t):
         w, vals, k = self.running[t]
-        self.present[w[0]][(t, k)] = vals[k]
-        self.yielded.add((t, k))
-        self.pending.append(("pubW", w[0], w[1], t, k))
-        self.trace.append({"op": "env", "yield": [t, k]})
+        if (t, k) in self.publish.get(t, ()):
+            self.present[w[0]][(t, k)] = vals[k]
+            self.yielded.add((t, k))
+            self.pending.append(("pubW", w[0], w[1], t, k))
+        else:
+            # not in the publish set the command carried: the value stays in the worker's local memory, reaches no
+            # host store and is never announced (runner.run: `outputId in executionContext.publish`)
+            self.local_only.add((t, k))
+        self.emit({"op": "env", "yield": [t, k]})
         if k + 1 == len(vals):
             del self.running[t]
         else:
@@ -315,7 +389,7 @@ class SimBridge:
             n = self.spec["tasks"][t]["nOut"]
             for k in range(n):
                 self.produced.add((t, k))
-            self.trace.append({"op": "env", "run": [w[0], w[1], t]})
+            self.emit({"op": "env", "run": [w[0], w[1], t]})
             if n > 0:
                 self.running[t] = [w, [sem(t, k, args) for k in range(n)], 0]
                 self.max_running = max(self.max_running, len(self.running))
@@ -329,16 +403,18 @@ class SimBridge:
             self.outstanding.remove(o)
             kind, d, src, tgt, idx = o
             if kind == "transmit":
-                self.trace.append({"op": "env", "io": ["transmit", d[0], d[1], src, tgt]})
+                self.emit({"op": "env", "io": ["transmit", d[0], d[1], src, tgt]})
             else:
-                self.trace.append({"op": "env", "io": ["fetch", d[0], d[1], src]})
+                self.emit({"op": "env", "io": ["fetch", d[0], d[1], src]})
             if d not in self.present[src]:
                 self.flag("C04 io-source-gone " + kind, [d, src])
                 return
             if kind == "transmit":
                 if d not in self.present[tgt]:
                     self.present[tgt][d] = self.present[src][d]
-                    self.pending.append(("pubT", tgt, d[0], d[1], idx))
+                    self.pending.append(("pubT", tgt, d[0], d[1], idx, src))
+                    if sum(1 for hh in self.hosts if d in self.present[hh]) >= 3:
+                        self.note("datasets_on_3_or_more_hosts")
             else:
                 self.pending.append(("pay", d[0], d[1], self.present[src][d]))
 
@@ -365,6 +441,9 @@ class SimBridge:
                 k = self.rng.randint(1, len(self.pending))
                 if not self.fifo:
                     self.rng.shuffle(self.pending)
+                    if self.late_notice:
+                        # transfer notices travel slowly: everything else is delivered first
+                        self.pending.sort(key=lambda e: e[0] == "pubT")
                 batch, self.pending = self.pending[:k], self.pending[k:]
                 for e in batch:
                     if e[0] == "pay":
@@ -460,7 +539,7 @@ def canon_model_ctl(m):
 
 # ----------------------------------------------------------------------------- one run of the real controller
 
-def run_case(spec, ws, seed, fifo, none_output=None, max_rounds=None, alarm_s=60):
+def run_case(spec, ws, seed, fifo, none_output=None, max_rounds=None, alarm_s=20, report=False):
     """Returns dict(trace, viol, outcome, outputs, rounds, ...). `trace` is the op list for the Lean driver,
     each controller entry carrying the implementation's digest for comparison."""
     import cascade.controller.impl as impl
@@ -485,14 +564,40 @@ def run_case(spec, ws, seed, fifo, none_output=None, max_rounds=None, alarm_s=60
         trace[0]["comp"] = [st.ts2component[tname(i)] for i in range(len(spec["tasks"]))]
         trace[0]["ncomp"] = len(st.components)
         trace[0]["impl_sch"] = digest_sch(st)
+        try:
+            trace[0]["impl_ctl"] = digest_state(st, spec)
+        except Exception as e:
+            trace[0]["impl_ctl"] = {"unobservable": repr(e)[:200]}
         return st
 
     def w_assign(state, job_, env):
         for a in sapi.assign(state, job_, env):
-            cur["asg"].append(a)
+            orders = cur.pop("orders", [])
+            navail = cur.pop("navail", {})
+            for p in a.prep:
+                if p[1] != a.worker.host:
+                    br.note("transmits_commanded")
+                    if navail.get(tuple(un_ds(p[0])), 0) >= 2:
+                        br.note("transmits_with_2_or_more_available_sources")
+            cur["asg"].append((a, orders))
             cur["events"].append({"k": "asg", "w": un_w(a.worker), "t": int(a.tasks[0][1:]),
-                                  "cands": [un_ds(p[0]) + [un_h(p[1])] for p in a.prep if p[1] != a.worker.host]})
+                                  "cands": [un_ds(p[0]) + [un_h(p[1])] for p in a.prep if p[1] != a.worker.host],
+                                  "orders": orders})
             yield a
+
+    o_build = sassign.build_assignment
+
+    def w_build(worker, task, state):
+        # the iteration order of ds2host[ds] at the moment build_assignment scans it for a transmit source
+        try:
+            cur["orders"] = [un_ds(ds) + [[un_h(h) for h in state.ds2host[ds].keys()]] for ds in state.edge_i[task] if ds in state.ds2host]
+            from cascade.scheduler.core import DatasetStatus
+            cur["navail"] = {tuple(un_ds(ds)): sum(1 for st_ in state.ds2host[ds].values() if st_ == DatasetStatus.available)
+                             for ds in state.edge_i[task] if ds in state.ds2host}
+        except Exception:
+            cur["orders"] = []
+            cur["navail"] = {}
+        return o_build(worker, task, state)
 
     o_awc, o_mig, o_heur = sapi.assign_within_component, sapi.migrate_to_component, sassign._assignment_heuristic
 
@@ -516,18 +621,25 @@ def run_case(spec, ws, seed, fifo, none_output=None, max_rounds=None, alarm_s=60
         cur["rounds"] += 1
         if cur["rounds"] > bound:
             raise Livelock()
-        return sapi.plan(state, assignments)
+        if br.observe_mid:
+            cur["implA"] = _observe(state, spec)       # the State as assign()+act() left it
+        st = sapi.plan(state, assignments)
+        if br.observe_mid:
+            cur["implP"] = _observe(st, spec)          # ... and as plan() left it
+        return st
 
     def w_flush(bridge, state):
         st = cact.flush_queues(bridge, state)
         asg = [{"w": un_w(a.worker), "t": int(a.tasks[0][1:]), "ntasks": len(a.tasks),
                 "cands": [un_ds(p[0]) + [un_h(p[1])] for p in a.prep if p[1] != a.worker.host],
-                "prep": sorted(un_ds(p[0]) + [un_h(p[1])] for p in a.prep)} for a in cur["asg"]]
-        trace.append({"op": "round", "asg": asg, "events": cur["events"],
-                      "impl": dict(_observe(st, spec), cmds=br.cmds)})
+                "orders": orders,
+                "prep": sorted(un_ds(p[0]) + [un_h(p[1])] for p in a.prep)} for (a, orders) in cur["asg"]]
+        trace.append({"op": "round", "asg": asg, "events": cur["events"], "mid": br.mid, "wantMid": br.observe_mid,
+                      "impl": dict(_observe(st, spec), cmds=br.cmds, afterAssign=cur.pop("implA", None), afterPlan=cur.pop("implP", None))})
         cur["asg"] = []
         cur["events"] = []
         br.cmds = []
+        br.mid = []
         return st
 
     def w_notify(state, job_, events, reporter):
@@ -542,15 +654,40 @@ def run_case(spec, ws, seed, fifo, none_output=None, max_rounds=None, alarm_s=60
     saved = (impl.initialize, impl.assign, impl.plan, impl.flush_queues, impl.notify)
     impl.initialize, impl.assign, impl.plan, impl.flush_queues, impl.notify = w_init, w_assign, w_plan, w_flush, w_notify
     sapi.assign_within_component, sapi.migrate_to_component, sassign._assignment_heuristic = w_awc, w_mig, w_heur
+    sassign.build_assignment = w_build
 
     def on_alarm(*a):
         raise Livelock()
     old = signal.signal(signal.SIGALRM, on_alarm)
+    # a controller that spins WITHOUT calling anything the harness wraps (e.g. an unbounded loop inside assign()) can only
+    # be interrupted by a timer. A healthy run takes well under a second; the garbage collector is switched off for the
+    # duration of the run so that a collection pause of the (large) harness heap cannot be mistaken for a spin.
+    import gc
+    gc_was = gc.isenabled()
+    gc.disable()
     signal.alarm(alarm_s)
     outcome = "finished"
+    # gateway-driven runs: the controller reports progress and every fetched result to the gateway through the REAL
+    # controller.report.Reporter; its zmq socket is replaced by a recorder
+    import cascade.controller.report as creport
+    reports_raw = []
+
+    class _RSock:
+        def connect(self, addr):
+            pass
+
+        def send(self, raw):
+            reports_raw.append(raw)
+
+    class _RCtx:
+        def socket(self, kind):
+            return _RSock()
+    saved_ctx = creport.get_context
+    if report:
+        creport.get_context = lambda: _RCtx()
     try:
         pre = precompute(job)
-        st = impl.run(job, br, pre)
+        st = impl.run(job, br, pre, "tcp://gateway:1,job-7" if report else None)
         res["outputs"] = {tuple(un_ds(ds)): v for ds, v in st.outputs.items()}
         res["remaining"] = st.remaining
         trace.append({"op": "round", "asg": [], "final": True, "impl": {"finished": True}})
@@ -565,10 +702,25 @@ def run_case(spec, ws, seed, fifo, none_output=None, max_rounds=None, alarm_s=60
     finally:
         signal.alarm(0)
         signal.signal(signal.SIGALRM, old)
+        if gc_was:
+            gc.enable()
+        creport.get_context = saved_ctx
         impl.initialize, impl.assign, impl.plan, impl.flush_queues, impl.notify = saved
         sapi.assign_within_component, sapi.migrate_to_component, sassign._assignment_heuristic = o_awc, o_mig, o_heur
+        sassign.build_assignment = o_build
     res["comp"] = cur.get("comp")
     res["outcome"] = outcome
+    res["report"] = report
+    if report:
+        reps = []
+        for raw in reports_raw:
+            try:
+                r = creport.deserialize(raw)
+                import cloudpickle
+                reps.append([r.job_id, r.current_status, [[un_ds(d), cloudpickle.loads(b)] for d, b in r.results]])
+            except Exception as e:
+                reps.append(["undecodable", repr(e)[:100], []])
+        res["reports"] = reps
     res["viol"] = br.viol
     res["shutdowns"] = br.shutdowns
     res["rounds"] = cur["rounds"]
@@ -576,16 +728,27 @@ def run_case(spec, ws, seed, fifo, none_output=None, max_rounds=None, alarm_s=60
     res["env"] = {"present": sorted([h, d[0], d[1], v] for h, m in br.present.items() for d, v in m.items()),
                   "queued": [[w[0], w[1], t] for w, t in br.queued]}
     res["stats"] = {"tasks": len(spec["tasks"]), "hosts": len({w[0] for w in ws}), "workers": len(ws),
-                    "transmits": sum(1 for x in trace if x.get("op") == "env" and x.get("io", [""])[0] == "transmit"),
-                    "fetches": sum(1 for x in trace if x.get("op") == "env" and x.get("io", [""])[0] == "fetch"),
+                    "transmits": sum(1 for x in _env_ops(trace) if x.get("io", [""])[0] == "transmit"),
+                    "fetches": sum(1 for x in _env_ops(trace) if x.get("io", [""])[0] == "fetch"),
                     "purges": sum(1 for x in trace if x.get("op") == "round" for c in x.get("impl", {}).get("cmds", []) if c[0] == "purge"),
                     "atomic_bodies": br.atomic, "max_running": br.max_running,
+                    "mid_steps": br.mid_steps, "notes": dict(br.notes),
                     # controller rounds that happened while some body was between two of its outputs
                     "rounds_while_running": _rounds_while_running(trace, spec)}
     return res
 
 
 # ----------------------------------------------------------------------------- oracles (from the property texts)
+
+def _env_ops(trace):
+    """all executor steps of a run: those between controller rounds and those in the middle of a round"""
+    for x in trace:
+        if x.get("op") == "env":
+            yield x
+        elif x.get("op") == "round":
+            for _, op in x.get("mid", []):
+                yield op
+
 
 def _rounds_while_running(trace, spec):
     running, n = {}, 0
@@ -635,6 +798,63 @@ def oracle(res, fifo):
         out.append(("C01", "run-did-not-return-requested-outputs", oc))
     if res["shutdowns"] != 1:
         out.append(("C03", "shutdown-count", res["shutdowns"]))
+    if res.get("report"):
+        # the caller of a gateway-driven run gets its results through the reporter: every requested output exactly once,
+        # with the value of sequential evaluation; one progress report per completed task; the last report says Shutdown
+        reps = res.get("reports", [])
+        if not reps or reps[-1][1] != "Shutdown":
+            out.append(("C03", "reporter-shutdown-missing", reps[-1:] if reps else None))
+        if oc == "finished":
+            ref = seq_eval(spec)
+            got = {}
+            for _, _, results in reps:
+                for d, v in results:
+                    got.setdefault(tuple(d), []).append(v)
+            for d in map(tuple, spec["ext"]):
+                none_valued = res.get("none_output") is not None and tuple(res["none_output"]) == d
+                want = None if none_valued else ref[d]
+                if got.get(d) != [want]:
+                    out.append(("C01", "reported-result-missing-or-wrong", [list(d), got.get(d), want]))
+            nprog = sum(1 for _, stt, results in reps if stt not in (None, "Shutdown") and not results)
+            if nprog != len(spec["tasks"]):
+                out.append(("C03", "reporter-progress-count", [nprog, len(spec["tasks"])]))
+    # C03 "finishes in a bounded number of scheduling rounds": the bound of the theorem (c03_bounded), a function of the job only
+    rb = round_bound(spec)
+    if res["rounds"] > rb:
+        out.append(("C03", "rounds-exceed-roundBound", [res["rounds"], rb]))
+    return out
+
+
+def round_bound(spec):
+    """roundBound j = sum_t (1 + #inputs t + #outputs t) + #requested + 1 (Lemmas/SchedBoundA.lean)"""
+    return sum(1 + len(inputs_of(t)) + t["nOut"] for t in spec["tasks"]) + len(spec["ext"]) + 1
+
+
+def cmd_groups(cmds):
+    """the commands of one controller round in the order they were issued, up to what the implementation itself leaves
+    to set/dict iteration order: the transmits of one assignment (a loop over the set edge_i[task]) form a group that
+    precedes its task command; fetches are issued in fetching_queue order; the purges of one dataset (a loop over the
+    dict ds2host[ds]) form a group, and consecutive purge groups are compared as a multiset (purging_queue is filled
+    by a loop over the set edge_i[task])"""
+    out, i = [], 0
+    while i < len(cmds):
+        k = cmds[i][0]
+        if k == "transmit":
+            g = []
+            while i < len(cmds) and cmds[i][0] == "transmit":
+                g.append(cmds[i]); i += 1
+            out.append(["transmits", sorted(g)])
+        elif k == "purge":
+            groups = []
+            while i < len(cmds) and cmds[i][0] == "purge":
+                d = cmds[i][2:4]
+                g = []
+                while i < len(cmds) and cmds[i][0] == "purge" and cmds[i][2:4] == d:
+                    g.append(cmds[i]); i += 1
+                groups.append(sorted(g))
+            out.append(["purges", sorted(groups)])
+        else:
+            out.append(cmds[i]); i += 1
     return out
 
 
@@ -643,17 +863,56 @@ def oracle(res, fifo):
 def model_lines(trace):
     lines = []
     for x in trace:
-        y = {k: v for k, v in x.items() if k not in ("impl", "final", "impl_sch")}
+        y = {k: v for k, v in x.items() if k not in ("impl", "final", "impl_sch", "impl_ctl")}
         lines.append(json.dumps(y))
     return lines
 
 
-def compare(trace, model_out, fifo=False):
+def hard_notes(notes):
+    """replay problems that break the correspondence; 'soft:' notes (the implementation took another `available` host than
+    the first one of the modelled scan — admissible, theorem c04_scan_source_holds) are counted, not reported"""
+    return [n for n in (notes or []) if not n.startswith("soft:")]
+
+
+def soft_notes(model_out):
+    n = 0
+    for mo in model_out:
+        try:
+            m = json.loads(mo)
+        except Exception:
+            continue
+        if isinstance(m, dict):
+            n += sum(1 for x in m.get("notes", []) if x.startswith("soft:"))
+    return n
+
+
+def _diff_ctl(mc, ic):
+    for k in ic:
+        if k in mc and mc[k] != ic[k]:
+            return k, mc[k], ic[k]
+        if k not in mc:
+            return k, None, ic[k]
+    return None
+
+
+def compare(trace, model_out):
     """first disagreement between the implementation's trace and the model's replay, or None"""
+    if len(model_out) != len(trace):
+        return {"at": min(len(model_out), len(trace)), "op": "replay-length", "model": f"{len(model_out)} answers", "impl": f"{len(trace)} trace entries"}
     for i, (x, mo) in enumerate(zip(trace, model_out)):
         m = json.loads(mo)
         op = x["op"]
         if op == "init":
+            # the scheduler bookkeeping as initialize() leaves it (extended model only)
+            if isinstance(m, dict) and "sch" in m and "impl_sch" in x:
+                ms, isch = canon_model_sch(m["sch"]), x["impl_sch"]
+                for k in isch:
+                    if ms[k] != isch[k]:
+                        return {"at": i, "op": "init", "field": "sch." + k, "model": ms[k], "impl": isch[k]}
+            if isinstance(m, dict) and "ctl" in m and "impl_ctl" in x:
+                d = _diff_ctl(canon_model_ctl(m["ctl"]), x["impl_ctl"])
+                if d:
+                    return {"at": i, "op": "init", "field": d[0], "model": d[1], "impl": d[2]}
             continue
         if not isinstance(m, dict):
             return {"at": i, "op": x, "model": m, "impl": "?"}
@@ -693,11 +952,25 @@ def compare(trace, model_out, fifo=False):
                     return {"at": i, "op": {kk: v for kk, v in x.items() if kk not in ("impl", "events")}, "field": "sch." + k, "model": ms[k], "impl": isch[k]}
             if m["sch"].get("schErr"):
                 return {"at": i, "op": op, "field": "schErr", "model": m["sch"]["schErr"], "impl": "no exception"}
-            if m.get("notes"):
+            if hard_notes(m.get("notes")):
                 return {"at": i, "op": {kk: v for kk, v in x.items() if kk not in ("impl",)}, "field": "assign-control-flow", "model": m["notes"], "impl": "performed"}
+        if op == "round" and "sch" not in m and hard_notes(m.get("notes")):
+            return {"at": i, "op": {kk: v for kk, v in x.items() if kk not in ("impl",)}, "field": "round-replay", "model": m["notes"], "impl": "performed"}
         if op == "round":
             if sorted(m.get("cmds", [])) != sorted(impl.get("cmds", [])):
                 return {"at": i, "op": {kk: v for kk, v in x.items() if kk != "impl"}, "field": "cmds", "model": sorted(m.get("cmds", [])), "impl": sorted(impl.get("cmds", []))}
+            if cmd_groups(m.get("cmds", [])) != cmd_groups(impl.get("cmds", [])):
+                return {"at": i, "op": {kk: v for kk, v in x.items() if kk != "impl"}, "field": "cmd-order", "model": cmd_groups(m.get("cmds", [])), "impl": cmd_groups(impl.get("cmds", []))}
+            # the State between the phases of the round: after assign()+act(), after plan()
+            for key, mkey in (("afterAssign", "ctlA"), ("afterPlan", "ctlP")):
+                io = impl.get(key)
+                if io is None or mkey not in m:
+                    continue
+                if "unobservable" in io:
+                    return {"at": i, "op": op, "field": "State " + key, "model": "state abstraction defined", "impl": io["unobservable"]}
+                d = _diff_ctl(canon_model_ctl(m[mkey]), io.get("ctl", {}))
+                if d:
+                    return {"at": i, "op": {kk: v for kk, v in x.items() if kk != "impl"}, "field": key + "." + d[0], "model": d[1], "impl": d[2]}
             for a in x["asg"]:
                 if a.get("ntasks", 1) != 1:
                     return {"at": i, "op": op, "field": "assignment with several tasks", "model": 1, "impl": a["ntasks"]}
